@@ -105,6 +105,12 @@ func classifyRoot(v ssa.Value, fn *ssa.Function, visiting map[ssa.Value]bool) ro
 		}
 		return res
 	case *ssa.Call:
+		if c := x.Call.StaticCallee(); c != nil && strings.HasPrefix(c.String(), "(*math/big.Int).") && len(x.Call.Args) > 0 {
+			// math/big methods that return *big.Int return their receiver
+			if _, isPtr := under(x.Type()).(*types.Pointer); isPtr {
+				return classifyRoot(x.Call.Args[0], fn, visiting)
+			}
+		}
 		if b, ok := x.Call.Value.(*ssa.Builtin); ok && b.Name() == "append" {
 			visiting[v] = true
 			defer delete(visiting, v)
@@ -138,7 +144,7 @@ func (w *World) instrWrites(ins ssa.Instruction, fn *ssa.Function) []writeEvent 
 	}
 	other := func(keys map[string]bool) {
 		for k := range keys {
-			if strings.HasPrefix(k, "$") {
+			if ghostPlain(k) {
 				continue
 			}
 			out = append(out, writeEvent{key: k, root: rootInfo{kind: rootOther}, at: ins})
@@ -184,6 +190,11 @@ func (w *World) instrWrites(ins ssa.Instruction, fn *ssa.Function) []writeEvent 
 			}
 			ws := w.externalWrites(cv)
 			delete(ws, "$consumed")
+			if ws["$big"] && len(c.Args) > 0 {
+				// math/big mutators write the value of their receiver only
+				add([]string{"$big"}, c.Args[0])
+				return out
+			}
 			if ws["T:uint8"] && len(ws) == 1 {
 				// byte-writing externals write their byte-slice argument(s) only
 				for _, a := range c.Args {
@@ -283,3 +294,6 @@ func (w *World) loopFrame(blocks map[*ssa.BasicBlock]bool, fn *ssa.Function) (pl
 	return
 }
 
+
+// ghostPlain: ghost keys that are always forgotten wholesale (no frame reasoning); $big takes part in the frame analysis.
+func ghostPlain(k string) bool { return strings.HasPrefix(k, "$") && k != "$big" }
